@@ -98,7 +98,7 @@ class PandasModel:
                 interp.emit('column_read', node, frame=base, col=cval(idx), known=c is not None, have=list(cols) if cols else None)
                 out = (c if c is not None else AV()).w(ty='Series' if ty == 'DataFrame' else 'int', deps=d, col=cval(idx),
                                                        view_of=base.store, store=base.store if ty == 'DataFrame' else None,
-                                                       row_sorted_by=base.frame_sorted_by,
+                                                       row_sorted_by=base.frame_sorted_by, scan=base.scan if ty == 'Row' else None,
                                                        row_var=node.value.id if (ty == 'Row' and isinstance(node, ast.Subscript) and isinstance(node.value, ast.Name)) else None)
                 return out
             if idx.ty == 'list' and idx.elts is not None and all(has_const(e) for e in idx.elts):
